@@ -76,6 +76,8 @@ class Withdraw:
                 self.problems.append((cb, "refund closure has %d exits" % len(ex)))
                 continue
             ret = ex[0][3]
+            if ret[0] == "call":
+                ret = common.inline_helpers(P, ret)        # a plain constructor (`Asset::new(info, amount)`) is its aggregate
             item = ("param", cf.path, 1)
             amt_v = proj(ret, ("f", "amount"))
             info_v = proj(ret, ("f", "info"))
@@ -167,10 +169,10 @@ def _run(ctx):
         else:
             r1.site("S ⊢ TokenInfo(LP token).total_supply")
     recv, edge, region, h, callbb = wd.pr.withdraw_hook
-    cw20_i = common.param_index_of_type(recv, r"^cw20::\S*Cw20ReceiveMsg$")
+    recv0, cw20_i = roles.cw20_envelope(P, "pair")
     hv = P.val_call(recv, recv.body, callbb)
     got = set(ctx.roots(hv[4][wd.amount_i]))
-    if got != {P_(recv, cw20_i, ".amount")}:
+    if got != {P_(recv0, cw20_i, ".amount")}:
         r1.fail("C04.R1:amount-origin", recv.path, common.span_of_block_term(recv, callbb), "burn amount handed to the handler ⊢ %s, expected the cw20 envelope's amount" % sorted(got))
     else:
         r1.site("a ⊢ cw20_msg.amount")
